@@ -5,6 +5,7 @@ from .. import containers as C
 from ..vsa import VSA, small
 from ..facts import AnalysisBroken
 from .c01_hint import walk
+from .. import affine
 
 EXPLANATION = (
     "Value-set and pairing rules on Unicode.hpp, String.hpp and String.cpp: (a) every subscript of a constant-size table by a "
@@ -14,7 +15,10 @@ EXPLANATION = (
     "`case n` entry at most n bytes are consumed; (c) the encoder's range tests send representative code points of every range to the "
     "branch that emits the byte count Unicode::length reports for the lead byte it produces, and reject values >= 0x110000; (d) "
     "fromBase64 writes its output at an index bounded by the input index (at most one increment per iteration) into a buffer reserved "
-    "for the input length. Not decided: that encoder and decoder are inverse on all code points, integer round trips, hex/base64 values.")
+    "for the input length; (h) the encoder's byte expressions evaluate to UTF-8 for representatives of every range (ends, one-hot values, "
+    "ends with one bit flipped); (i) the decoder, evaluated abstractly over affine forms in the input bytes, returns the UTF-8 value of "
+    "every well-formed sequence; (j) a bounded copy handed to a C parser holds the longest decimal text. Not decided: integer round "
+    "trips beyond parser choice and range, hex/base64 values.")
 
 
 def table_size(f, base, prog):
@@ -242,6 +246,9 @@ def run(prog, chk):
     hex_reads_covered(prog, chk, "C18.g")
     conversion_ranges(prog, chk, "C18.e")
     formatted_buffers(prog, chk, "C18.f")
+    parser_text_complete(prog, chk, "C18.j")
+    encoder_bytes_are_utf8(prog, chk, "C18.h")
+    decoder_is_utf8(prog, chk, "C18.i")
 
 
 INT_T = {"int": (True, 32), "unsigned int": (False, 32), "long": (True, 64), "unsigned long": (False, 64),
@@ -537,3 +544,173 @@ def hex_reads_covered(prog, chk, rid):
             chk.bad(rid, f, "input-read-beyond-size", f.where(i),
                     "`%s` is reached although the byte it reads may be the first one behind the input (no dominating test fails when its offset "
                     "equals size): for an odd size the byte behind the caller's buffer is read" % q.no_casts(f.r(i))[:40], evals=len(atoms) + 1)
+
+
+def _utf8_reps():
+    """representative code points of every encoder range: the ends, every one-hot value, and the ends with one bit flipped - the byte
+    expressions of the encoder are shifts, masks and ors of the one variable, which these inputs determine bit by bit"""
+    out = []
+    for lo, hi in ((0, 0x7F), (0x80, 0x7FF), (0x800, 0xFFFF), (0x10000, 0x10FFFF)):
+        vs = {lo, hi, lo + 1, hi - 1}
+        for k in range(21):
+            for v in (1 << k, lo | (1 << k), hi & ~(1 << k), hi ^ (1 << k), (lo | (1 << k)) | 0x15, 0x155555 & ~((1 << k) - 1) & hi):
+                if lo <= v <= hi:
+                    vs.add(v)
+        out.extend(sorted(v for v in vs if not 0xD800 <= v <= 0xDFFF))     # surrogates are not code points UTF-8 encodes
+    return out
+
+
+def encoder_bytes_are_utf8(prog, chk, rid):
+    """the bytes Unicode::append(uint32, String&) hands to String::append, evaluated for representatives of every range, are the UTF-8
+    encoding of the code point"""
+    chk.rule(rid, "FIN: for representative code points of every range (ends, one-hot values, ends with one bit flipped; surrogates left "
+                  "out) the byte expressions on the path Unicode::append takes evaluate to the UTF-8 encoding of the code point", floor=4)
+    enc = [f for f in prog.functions.values() if f.name == "Unicode::append" and len(f.params) == 2 and f.params[0]["t"] == "unsigned int"]
+    if not enc:
+        raise AnalysisBroken("Unicode::append(uint32, String&) not found")
+    enc = enc[0]
+    cp = enc.params[0]["n"]
+    where = "%s:%s" % (enc.file, enc.line)
+    per_range = {}
+    for v in _utf8_reps():
+        seen_, r, fv_e = fin.walk_vals(enc, enc.entry, {cp: v}, limit=200)
+        want = list(chr(v).encode("utf-8", "surrogatepass"))
+        rng = len(want)
+        st = per_range.setdefault(rng, {"n": 0, "bad": None})
+        st["n"] += 1
+        if isinstance(r, str):
+            st["bad"] = st["bad"] or (v, "the range tests could not be evaluated (%s)" % r, where)
+            continue
+        got = []
+        at = where
+        cur = {cp: v}
+        # the valuation at each append: the parameter may be changed on the way (`ch -= 0x10000` in the UTF-16 branch)
+        vals_at = {}
+
+        def trace(e, val_, _m=vals_at):
+            _m[e] = dict(val_)
+        fin.walk_vals(enc, enc.entry, {cp: v}, limit=200, trace=trace)
+        for c in seen_:
+            if enc.nodes[c]["k"] in ("CXXMemberCallExpr", "CallExpr") and enc.nodes[c].get("callee") == "String::append":
+                a = q.call_args(enc, c)
+                x = fin.eval_expr(enc, a[0], vals_at.get(c, cur)) if a else None
+                got.append(None if x is None else x & 0xFF)
+                at = enc.where(c)
+        if got != want:
+            st["bad"] = st["bad"] or (v, "emits %s, UTF-8 is %s" % (" ".join("??" if b is None else "%02X" % b for b in got) or "nothing",
+                                                                     " ".join("%02X" % b for b in want)), at)
+    for rng, st in sorted(per_range.items()):
+        if st["bad"] is None:
+            chk.ok(rid, enc, "%d-byte range: %d representatives encode as UTF-8" % (rng, st["n"]), where, "byte expressions evaluated for each representative", evals=st["n"])
+        else:
+            v, why, at = st["bad"]
+            chk.bad(rid, enc, "encoder-bytes-not-utf8:%d-byte" % rng, at,
+                    "U+%04X: Unicode::append %s - toString/fromString are no longer inverse on this range and the text is not UTF-8" % (v, why), evals=st["n"])
+
+
+UTF8_MARK = {1: [0], 2: [0xC0, 0x80], 3: [0xE0, 0x80, 0x80], 4: [0xF0, 0x80, 0x80, 0x80]}
+
+
+def decoder_is_utf8(prog, chk, rid):
+    """Unicode::fromString(ch, len) as an affine form over the bytes it reads, per sequence length"""
+    chk.rule(rid, "AFF (abstract evaluation over affine forms in the input bytes): for each sequence length n = 1..4 the value "
+                  "Unicode::fromString(ch, len) returns along the path taken for a lead byte of that class is "
+                  "sum((byte_i - marker_i) * 64^(n-1-i)) mod 2^32 with the UTF-8 markers (C0/E0/F0 for the lead, 80 for continuations), "
+                  "every byte read as unsigned and none behind byte n-1", floor=4)
+    dec = [f for f in prog.functions.values() if f.name == "Unicode::fromString" and len(f.params) == 2 and "char" in f.params[0]["t"] and f.blocks]
+    ln = [f for f in prog.functions.values() if f.name == "Unicode::length" and f.blocks]
+    if not dec or not ln:
+        raise AnalysisBroken("Unicode::fromString(const char*, usize) / Unicode::length not found")
+    dec = dec[0]
+    P, L = dec.params[0]["n"], dec.params[1]["n"]
+    where = "%s:%s" % (dec.file, dec.line)
+    # the local that receives Unicode::length(lead byte): its value is the class of the lead byte
+    lens = [d["n"] for n in dec.nodes if n["k"] == "DeclStmt" for d in n["decls"]
+            if d.get("init") is not None and dec.nodes[dec.strip(d["init"])]["k"] == "CallExpr" and (dec.nodes[dec.strip(d["init"])].get("callee") or "") == "Unicode::length"]
+    for n in (1, 2, 3, 4):
+        rep = [UTF8_MARK[n][0] | (1 if n > 1 else 0x41)] + [0x80 | 0x2A] * (n - 1)
+        consts = {L: n}
+        for nm in lens:
+            consts[nm] = n
+        w = affine.Walker(dec, P, consts, rep)
+        try:
+            form, ret = w.run()
+        except affine.NotAffine as e:
+            if any(s_ for (_x, _k, s_) in w.reads):
+                chk.bad(rid, dec, "decoder-reads-signed-byte:%d" % n, dec.where(e.node) if e.node is not None and e.node >= 0 else where,
+                        "%d-byte sequence: %s - a lead or continuation byte >= 0x80 enters the sum as a negative number" % (n, e.why), evals=len(w.trail))
+                continue
+            raise AnalysisBroken("Unicode::fromString: the %d-byte path is not an affine function of the bytes (%s)" % (n, e.why))
+        if form is None:
+            raise AnalysisBroken("Unicode::fromString: no return reached for a %d-byte sequence" % n)
+        got = affine.norm(form, 32)
+        want = {None: 0}
+        for i in range(n):
+            want[i] = 64 ** (n - 1 - i)
+            want[None] -= UTF8_MARK[n][i] * want[i]
+        want = affine.norm(want, 32)
+        far = [k_ for (_x, k_, _s) in w.reads if not 0 <= k_ < n]
+        if got == want and not far:
+            chk.ok(rid, dec, "%d-byte sequence decodes as UTF-8" % n, dec.where(ret), "affine form of the returned value: %s" % _fmt(got), evals=len(w.trail) + len(w.reads))
+        elif far:
+            chk.bad(rid, dec, "decoder-reads-outside-sequence:%d" % n, dec.where(ret),
+                    "for a %d-byte sequence byte %d is read: behind the sequence (and, for len == %d, behind the range handed in)" % (n, far[0], n), evals=len(w.trail))
+        else:
+            chk.bad(rid, dec, "decoder-not-utf8:%d-byte" % n, dec.where(ret),
+                    "for a %d-byte sequence fromString returns %s; UTF-8 is %s - code points of this length do not survive toString/fromString" % (
+                        n, _fmt(got), _fmt(want)), evals=len(w.trail))
+
+
+def _fmt(a):
+    ts = ["%d*b%d" % (c, k) if c != 1 else "b%d" % k for k, c in sorted((k, c) for k, c in a.items() if k is not None)]
+    c0 = a.get(None, 0)
+    if c0:
+        ts.append("- 0x%X" % ((1 << 32) - c0) if c0 > (1 << 31) else "+ 0x%X" % c0)
+    return " + ".join(ts).replace("+ -", "-") or "0"
+
+
+PARSERS = re.compile(r"^(atoi|atol|atoll|strto(u?l|u?ll|imax|umax|d|f|ld)|atof)$")
+
+
+def parser_text_complete(prog, chk, rid):
+    """the text handed to the C library parser is the String's text (or the caller's), not a bounded copy that cuts long numerals"""
+    chk.rule(rid, "VSA: where a String::to<Integer> conversion hands the C library parser a local character array instead of the text itself, "
+                  "the array holds the longest decimal text of the result type (sign, digits, NUL: 12 bytes for 32 bit, 21 for 64 bit)", floor=8)
+    for f in sorted([f for f in prog.functions.values() if f.file.endswith("String.cpp") and re.match(r"^String::to(U?Int(64)?)$", f.name) and f.blocks], key=lambda g: g.sig):
+        R = INT_T.get(f.d["ret"]) or INT_T.get(f.d.get("ret_canon", ""))
+        need = None if R is None else (12 if R[1] <= 32 else 21)
+        defs = q.local_defs(f)
+        sites = [c for c in q.calls(f) if PARSERS.match(f.nodes[c].get("callee") or "")]
+        if not sites:
+            # delegates to its sibling overload, which is an instance of its own
+            chk.ok(rid, f, "no parser call of its own", "%s:%s" % (f.file, f.line), "delegation", nontrivial=False)
+            continue
+        for c in sites:
+            a = q.call_args(f, c)
+            x = f.strip(a[0]) if a else None
+            for _h in range(4):
+                if x is None:
+                    break
+                nx = f.nodes[x]
+                if nx["k"] in ("CStyleCastExpr", "CXXStaticCastExpr", "CXXReinterpretCastExpr", "CXXConstCastExpr") and nx["c"]:
+                    x = f.strip(nx["c"][0])
+                    continue
+                if nx["k"] == "DeclRefExpr" and nx["ref"].get("dk") == "local" and "[" not in (nx["ref"].get("t") or ""):
+                    ini = q.single_def(f, nx["ref"]["id"], defs)
+                    if ini is not None:
+                        x = f.strip(ini)
+                        continue
+                if nx["k"] == "UnaryOperator" and nx.get("op") == "&" and nx["c"] and f.nodes[f.strip(nx["c"][0])]["k"] == "ArraySubscriptExpr":
+                    x = f.strip(f.nodes[f.strip(nx["c"][0])]["c"][0])      # &buf[0]
+                    continue
+                break
+            nx = f.nodes[x] if x is not None else None
+            m = re.search(r"\[(\d+)\]$", (nx["ref"].get("t") or "")) if nx is not None and nx["k"] == "DeclRefExpr" and nx["ref"].get("dk") == "local" else None
+            if m and need is not None and int(m.group(1)) < need:
+                chk.bad(rid, f, "parser-text-truncated:" + nx["ref"]["n"], f.where(c),
+                        "%s parses the %d-byte local copy `%s`: the longest decimal text of `%s` needs %d bytes (sign, digits, NUL), so the "
+                        "conversion is not exact at the ends of the range (e.g. the most negative value loses its last digit)" % (
+                            f.nodes[c]["callee"], int(m.group(1)), nx["ref"]["n"], f.d["ret"], need), evals=2)
+            else:
+                chk.ok(rid, f, "%s reads %s" % (f.nodes[c]["callee"], "a local copy of %s bytes" % m.group(1) if m else "the text itself"), f.where(c),
+                       "argument followed to its origin", evals=2)
